@@ -81,7 +81,14 @@ pub fn gen_case(rng: &mut Rng, i: usize, ports: &Ports) -> HttpCase {
     let explicit = rng.chance(0.6);
     let port = if explicit { if ip.is_ipv6() { ports.p6 } else { ports.p4 } } else { default_port };
     let authority = if explicit { format!("{host_text}:{port}") } else { host_text.clone() };
-    let path = format!("/{}/p{}?q={}&t={}", rng.pick(&["a", "index.html", "api/v1/items", "x%20y"]), i, rng.below(1000), token);
+    // every sixth request carries another URL, unescaped, in its path or query (redirectors, proxies of proxies): the
+    // authority is the one of the request target itself
+    let inner = match i % 12 {
+        5 => "&next=http://127.250.1.1:9/landing",
+        11 => "&u=https://decoy.c17.test/x://y",
+        _ => "",
+    };
+    let path = format!("/{}/p{}?q={}&t={}{inner}", rng.pick(&["a", "index.html", "api/v1/items", "x%20y", "go/http://decoy.c17.test:1/z"]), i, rng.below(1000), token);
     let version = if rng.chance(0.85) { "HTTP/1.1" } else { "HTTP/1.0" };
     let target = match form {
         "authority" => authority.clone(),
@@ -527,7 +534,7 @@ pub fn run(ctx: Ctx) -> Report {
 pub fn meta() -> CheckMeta {
     CheckMeta {
         level: "exploration",
-        rule: "requests generated from a grammar together with their expected outcome (no second parser): method in {CONNECT, GET, POST, PUT, DELETE, HEAD, OPTIONS, PATCH}, target form in {authority, absolute http URI, absolute https URI, origin-form + Host}, host spelled as name (fake DNS), IPv4 literal or bracketed IPv6, explicit port or scheme default (origins listen on 80 and 443 too), 0-60 header lines incl. head blocks 0-1500 bytes under the 64 KiB limit, Host header at any position and in any letter case or absent (for absolute URIs also naming another port / no port / another host than the URI, which wins), 0-8 KiB of body/tunnel bytes in the same segment as the head plus later bytes ending in a unique marker; head delivered whole / in three pieces / dripped. Observed through the real start_http_proxy_server + Client + Server: the origin connection carrying the case's token must have arrived at exactly the named (address, port); CONNECT answered 200 and the tunnel bytes (incl. those sent with the header) arrive exactly once, in order; for other methods request line = method origin-form version, non-Host header lines identical and in order, Host present and naming the same authority (port may be omitted for 80/443), body bytes identical. Only the first request per connection. distinct_nontrivial = distinct generated requests.".into(),
+        rule: "requests generated from a grammar together with their expected outcome (no second parser): method in {CONNECT, GET, POST, PUT, DELETE, HEAD, OPTIONS, PATCH}, target form in {authority, absolute http URI, absolute https URI, origin-form + Host}, host spelled as name (fake DNS), IPv4 literal or bracketed IPv6, explicit port or scheme default (origins listen on 80 and 443 too), 0-60 header lines incl. head blocks 0-1500 bytes under the 64 KiB limit, Host header at any position and in any letter case or absent (for absolute URIs also naming another port / no port / another host than the URI, which wins), 0-8 KiB of body/tunnel bytes in the same segment as the head plus later bytes ending in a unique marker; head delivered whole / in three pieces / dripped. Observed through the real start_http_proxy_server + Client + Server: the origin connection carrying the case's token must have arrived at exactly the named (address, port); CONNECT answered 200 and the tunnel bytes (incl. those sent with the header) arrive exactly once, in order; for other methods request line = method origin-form version, non-Host header lines identical and in order, Host present and naming the same authority (port may be omitted for 80/443), body bytes identical. Only the first request per connection. distinct_nontrivial = distinct generated requests. Every sixth request carries another URL, unescaped, in its path or query (and a fifth of the paths contain one as a segment): the authority is still the one of the request target.".into(),
         assumptions: vec!["a head block above 64 KiB may be rejected (documented cap); blocks at or below it must be served".into()],
         floors: vec![("requests", 300), ("requests_seen_at_an_origin", 200), ("tunnels_to_the_named_authority", 200), ("head_near_64k", 20)],
         exhaustive: false,
